@@ -6,6 +6,7 @@ Require Import Zrs.proofs.C15_Frame Zrs.proofs.C02_Roundtrip Zrs.proofs.C02_Fast
 Require Import Zrs.model.FseDec Zrs.model.SeqSection Zrs.model.BlockEnc Zrs.proofs.C12_SeqStream Zrs.proofs.C02_Block.
 Require Import Zrs.model.Matcher Zrs.proofs.C06_Drain Zrs.proofs.C17_Matcher Zrs.proofs.C17_Shape Zrs.proofs.C02_Glue Zrs.proofs.C02_FastBlock.
 Require Import Zrs.model.HufDec Zrs.model.LitEnc Zrs.proofs.C02_Concrete.
+Require Import Zrs.model.SeqNorm Zrs.proofs.C02_O1.
 Open Scope Z_scope.
 
 (** level Uncompressed: every input, every fragmentation of the source reads, every block size up to 128 KiB, every
@@ -118,6 +119,32 @@ Theorem C02_fastest_roundtrip : forall norm litenc,
     fr_checksum s2 = match hash32 with Some h => Some (le_val (h data)) | None => None end.
 Proof. exact fastest_roundtrip_concrete. Qed.
 
+(** obligation O1 is met by the modelled normaliser ([norm_model]: histograms of the three code kinds, normalised by the
+    model of build_table_from_counts, which is compared with the real normaliser on every histogram of a run and whose
+    distributions are compared with those read out of every real block): for the sequences of any block the three
+    distributions are normalised, within the format's limits, their tables build, are well formed and cover every code
+    that occurs *)
+Theorem C02_normaliser_meets_O1 : forall seqs, seqs <> [] -> forallb seq_range_b seqs = true -> Z.of_nat (length seqs) <= 98047 ->
+  let '(dl, do, dm) := norm_model seqs in section_hyps_b dl do dm seqs = true.
+Proof. exact norm_model_meets_O1. Qed.
+
+(** ... so that, with that normaliser, the round trip at level Fastest rests on obligation O2 (the literals encoder) alone *)
+Theorem C02_fastest_roundtrip_sequences_closed : forall litenc,
+  (forall o lits h, (forall t, o = Some t -> h = t) -> zlen lits <= MAX_BLOCK_SIZE ->
+     let '(hdr, payload, o') := litenc o lits in
+     exists ht', lit_ok h lits hdr payload ht' /\ (forall t, o' = Some t -> ht' = t)) ->
+  forall slice wsize hash32 cs data script frame cs' r',
+  Cinit cs -> 1 <= Z.of_nat slice <= 131072 -> 1 <= wsize <= 2 ^ 27 ->
+  (forall h x, hash32 = Some h -> length (h x) = 4%nat) ->
+  compress_frame cst (cblock norm_model litenc) cskip cfallback creset LFastest slice wsize hash32 cs
+    {| rd_data := data; rd_script := script |} = ROk (frame, cs', r') ->
+  exists d1 rest evs s1 d2 s2,
+    fdec_reset fdec_new frame = ROk (d1, rest, evs) /\ fd_state d1 = Some s1 /\
+    fdec_decode_blocks d1 rest SAll = ROk (d2, [], true) /\ fd_state d2 = Some s2 /\
+    buf_content s2 = data /\
+    fr_checksum s2 = match hash32 with Some h => Some (le_val (h data)) | None => None end.
+Proof. intros litenc O2. exact (fastest_roundtrip_concrete norm_model litenc norm_model_meets_O1 O2). Qed.
+
 (** a fresh compressor (and every state reached from it) satisfies [Cinit] *)
 Example C02_new_compressor_is_initial : Cinit {| c_d := mgd_new (Z.to_nat 131072) 1; c_ht := None |}.
 Proof.
@@ -179,6 +206,8 @@ Print Assumptions C02_fastest_block_step_with_raw_literals.
 Print Assumptions C02_raw_literal_block_decodes.
 Print Assumptions C02_fastest_roundtrip_given_block_encoder.
 Print Assumptions C02_fastest_roundtrip.
+Print Assumptions C02_normaliser_meets_O1.
+Print Assumptions C02_fastest_roundtrip_sequences_closed.
 Print Assumptions C02_raw_literals_meet_O2.
 Print Assumptions C02_uncompressed_roundtrip.
 Print Assumptions C02_blocks_independent_of_fragmentation.
